@@ -31,6 +31,7 @@ package store
 //@   ensures [C04] coherent: idxCacheOK()
 //@   ensures [C04] found: result1 == nil ==> dsHas[kHeight(h)] && result0 == dsVal[kHeight(h)]
 //@   ensures [C04] missing: result1 != nil ==> !dsHas[kHeight(h)] && errors.Is(result1, datastore.ErrNotFound)
+//@   ensures [C04] cache-grows-only-here: forall k uint64 @ icHas[k] :: icHas[k] ==> old(icHas)[k] || (k == h && cache && result1 == nil)
 
 // ---- pending batch (headers appended but not yet flushed)
 // batchOK: height -> header and hash -> height maps describe chain headers consistently (C04 clause D)
@@ -87,7 +88,9 @@ package store
 
 // ---- the representation invariant shared by all goroutines (C04); it is re-assumed after every blocking
 // operation (rely) and proved after every operation that writes (guarantee)
-//@ pure storeINV(s) = hdrCacheOK() && dsHdrOK() && dsIdxOK() && idxCacheOK() && batchOK(s.pending) && ptrsOK(s) && s.heightIndex != nil && s.heightSub != nil
+//@ pure pendingEndsOK(s) = forall h uint64 @ has(s.pending.headers, h) :: has(s.pending.headers, h) ==> apSet(s.contiguousHead) && apSet(s.tailHeader)
+//@ pure storeINV0(s) = hdrCacheOK() && dsHdrOK() && dsIdxOK() && idxCacheOK() && batchOK(s.pending) && ptrsOK(s) && s.heightIndex != nil && s.heightSub != nil
+//@ pure storeINV(s) = storeINV0(s) && pendingEndsOK(s)
 //@ pure present(s, h) = has(s.pending.headers, h) || dsHas[kHeight(h)] || (apSet(s.contiguousHead) && apVal(s.contiguousHead).Height() == h) || (apSet(s.tailHeader) && apVal(s.tailHeader).Height() == h)
 
 //@ func (*Store).getByHeight(s, ctx, height)
@@ -120,11 +123,13 @@ package store
 //@   ensures [C04] consistent: batchOK(b)
 //@   ensures [C04] readable: forall i int :: 0 <= i && i < len(headers) ==> has(b.headers, headers[i].Height()) && sameHdr(b.headers[headers[i].Height()], headers[i]) && has(b.heights, hexStr(headers[i].Hash())) && b.heights[hexStr(headers[i].Hash())] == headers[i].Height()
 //@   ensures [C04] keeps: forall h uint64 @ has(b.headers, h) :: old(has(b.headers, h)) ==> has(b.headers, h)
+//@   ensures [C04] only-appended: forall h uint64 @ has(b.headers, h) :: has(b.headers, h) ==> old(has(b.headers, h)) || (exists i int :: 0 <= i && i < len(headers) && headers[i].Height() == h)
 //@ loop 0:
 //@   invariant bounds: -1 <= rangeindex && rangeindex + 1 <= len(headers)
 //@   invariant consistent: batchOK(b)
 //@   invariant readable: forall i int :: 0 <= i && i <= rangeindex ==> has(b.headers, headers[i].Height()) && sameHdr(b.headers[headers[i].Height()], headers[i]) && has(b.heights, hexStr(headers[i].Hash())) && b.heights[hexStr(headers[i].Hash())] == headers[i].Height()
 //@   invariant keeps: forall h uint64 @ has(b.headers, h) :: old(has(b.headers, h)) ==> has(b.headers, h)
+//@   invariant only-appended: forall h uint64 @ has(b.headers, h) :: has(b.headers, h) ==> old(has(b.headers, h)) || (exists i int :: 0 <= i && i <= rangeindex && headers[i].Height() == h)
 //@   invariant frame: unchanged("elems(H)")
 //@   decreases len(headers) - rangeindex
 
@@ -265,3 +270,183 @@ package store
 //@   invariant coherent: hdrCacheOK() && idxCacheOK() && apSet(s.contiguousHead) && onChain(head)
 //@   invariant monotone: head.Height() >= apVal(s.contiguousHead).Height() && (changed <==> head.Height() > apVal(s.contiguousHead).Height())
 //@   invariant no-gap: forall k uint64 :: apVal(s.contiguousHead).Height() < k && k <= head.Height() ==> present(s, k)
+
+//@ pure heightEq(s) = apSet(s.contiguousHead) ==> atomicU64(s.heightSub.height) == apVal(s.contiguousHead).Height()
+
+//@ func (*Store).advanceHead(s, ctx)
+//@   props C04, C17
+//@   requires storeINV(s)
+//@   modifies $now, ghost:hcHas, ghost:hcVal, ghost:icHas, ghost:icVal, AP_set, AP_val_Hdr, AT_u64, sub.count, MH_Int_Int_has, MH_Int_Int_val, ghost:arrived
+//@   ensures [C04] inv: storeINV(s)
+//@   ensures [C17] monotone: old(apSet(s.contiguousHead)) ==> apSet(s.contiguousHead) && apVal(s.contiguousHead).Height() >= old(apVal(s.contiguousHead).Height())
+//@   ensures [C17] published-height-grows: atomicU64(s.heightSub.height) >= old(atomicU64(s.heightSub.height))
+//@   ensures [C04,seq] height-follows: old(heightEq(s)) ==> heightEq(s)
+//@   ensures [C04] no-gap: old(apSet(s.contiguousHead)) ==> forall k uint64 :: old(apVal(s.contiguousHead).Height()) < k && k <= apVal(s.contiguousHead).Height() ==> present(s, k)
+//@   ensures [C04] tail-untouched: apSet(s.tailHeader) == old(apSet(s.tailHeader)) && apVal(s.tailHeader) == old(apVal(s.tailHeader))
+
+//@ func (*Store).nextTail(s, ctx)
+//@   props C04
+//@   requires storeINV(s)
+//@   modifies $now, ghost:hcHas, ghost:hcVal, ghost:icHas, ghost:icVal
+//@   ensures [C04] coherent: hdrCacheOK() && idxCacheOK()
+//@   ensures [C04] empty: !apSet(s.tailHeader) ==> !result1
+//@   ensures [C04] on-chain: apSet(s.tailHeader) ==> onChain(result0)
+//@   ensures [C04] recedes: apSet(s.tailHeader) ==> result0.Height() <= apVal(s.tailHeader).Height() && (result1 <==> result0.Height() < apVal(s.tailHeader).Height())
+//@   ensures [C04] no-gap: apSet(s.tailHeader) ==> forall k uint64 :: result0.Height() <= k && k < apVal(s.tailHeader).Height() ==> present(s, k)
+//@ loop 0:
+//@   invariant coherent: hdrCacheOK() && idxCacheOK() && apSet(s.tailHeader) && onChain(tail)
+//@   invariant recedes: tail.Height() <= apVal(s.tailHeader).Height() && (changed <==> tail.Height() < apVal(s.tailHeader).Height())
+//@   invariant no-gap: forall k uint64 :: tail.Height() <= k && k < apVal(s.tailHeader).Height() ==> present(s, k)
+
+//@ func (*Store).recedeTail(s, ctx)
+//@   props C04
+//@   requires storeINV(s)
+//@   modifies $now, ghost:hcHas, ghost:hcVal, ghost:icHas, ghost:icVal, AP_set, AP_val_Hdr
+//@   ensures [C04] inv: storeINV(s)
+//@   ensures [C04] recedes: old(apSet(s.tailHeader)) ==> apSet(s.tailHeader) && apVal(s.tailHeader).Height() <= old(apVal(s.tailHeader).Height())
+//@   ensures [C04] no-gap: old(apSet(s.tailHeader)) ==> forall k uint64 :: apVal(s.tailHeader).Height() <= k && k < old(apVal(s.tailHeader).Height()) ==> present(s, k)
+//@   ensures [C04] head-untouched: apSet(s.contiguousHead) == old(apSet(s.contiguousHead)) && apVal(s.contiguousHead) == old(apVal(s.contiguousHead))
+
+// first append into an empty (or partially recovered) store publishes both ends of the chain (C04, C06)
+//@ func (*Store).ensureInit(s, headers)
+//@   props C04, C06
+//@   requires storeINV0(s) && forall i int :: 0 <= i && i < len(headers) ==> onChain(headers[i])
+//@   requires pending-from-batch: len(headers) == 0 ==> pendingEndsOK(s)
+//@   modifies AP_set, AP_val_Hdr, AT_u64, sub.count, MH_Int_Int_has, MH_Int_Int_val, ghost:arrived
+//@   ensures [C04] inv: storeINV(s)
+//@   ensures [C06] both-ends-initialised: len(headers) > 0 ==> apSet(s.contiguousHead) && apSet(s.tailHeader)
+//@   ensures [C04] keeps-head: old(apSet(s.contiguousHead)) ==> apSet(s.contiguousHead) && apVal(s.contiguousHead) == old(apVal(s.contiguousHead))
+//@   ensures [C04] keeps-tail: old(apSet(s.tailHeader)) ==> apSet(s.tailHeader) && apVal(s.tailHeader) == old(apVal(s.tailHeader))
+//@   ensures [C04] from-batch: len(headers) > 0 && !old(apSet(s.contiguousHead)) ==> apVal(s.contiguousHead) == headers[len(headers) - 1]
+//@   ensures [C04] from-batch-tail: len(headers) > 0 && !old(apSet(s.tailHeader)) ==> apVal(s.tailHeader) == headers[0]
+
+// ---- persistence (C06): one atomic batch per flush = headers + height index + head/tail pointers
+//@ func writeHeaderHashTo(ctx, write, h, key)
+//@   props C06
+//@   unreachable return0 : Hash.MarshalJSON never returns an error
+//@   requires write != nil
+//@   modifies ghost:btHas, ghost:btPuts, ghost:btVal, ghost:dsHas, ghost:dsVal, ghost:dsWrites
+//@   ensures [C06] write-count: dsWrites == ite(result == nil && !isBatch(write), old(dsWrites) + 1, old(dsWrites))
+//@   ensures [C06] failed-writes-nothing: result != nil ==> dsHas == old(dsHas) && dsVal == old(dsVal) && btHas == old(btHas) && btVal == old(btVal)
+//@   ensures [C06] batched: result == nil && isBatch(write) ==> dsHas == old(dsHas) && dsVal == old(dsVal) && btHas == upd(old(btHas), key, true) && btVal == upd(old(btVal), key, jsonHash(h.Hash()))
+//@   ensures [C06] direct: result == nil && !isBatch(write) ==> btHas == old(btHas) && btVal == old(btVal) && dsHas == upd(old(dsHas), key, true) && dsVal == upd(old(dsVal), key, jsonHash(h.Hash()))
+
+//@ func indexTo(ctx, batch, headers)
+//@   props C06
+//@   requires batch != nil && isBatch(batch) && forall i int :: 0 <= i && i < len(headers) ==> onChain(headers[i])
+//@   modifies ghost:btHas, ghost:btPuts, ghost:btVal
+//@   ensures [C06] indexed: result == nil ==> forall i int :: 0 <= i && i < len(headers) ==> btHas[kHeight(headers[i].Height())] && btVal[kHeight(headers[i].Height())] == headers[i].Hash()
+//@   ensures [C06] only-index-keys: forall k Key @ btHas[k] :: btHas[k] ==> old(btHas)[k] || (keyTag(k) == 2 && btVal[k] == chainAt(unkHeight(k)).Hash())
+//@   ensures [C06] keeps: forall k Key @ btHas[k] :: old(btHas)[k] ==> btHas[k] && (keyTag(k) != 2 ==> btVal[k] == old(btVal)[k])
+//@ loop 0:
+//@   invariant bounds: -1 <= rangeindex && rangeindex + 1 <= len(headers)
+//@   invariant indexed: forall i int :: 0 <= i && i <= rangeindex ==> btHas[kHeight(headers[i].Height())] && btVal[kHeight(headers[i].Height())] == headers[i].Hash()
+//@   invariant only-index-keys: forall k Key @ btHas[k] :: btHas[k] ==> old(btHas)[k] || (keyTag(k) == 2 && btVal[k] == chainAt(unkHeight(k)).Hash())
+//@   invariant keeps: forall k Key @ btHas[k] :: old(btHas)[k] ==> btHas[k] && (keyTag(k) != 2 ==> btVal[k] == old(btVal)[k])
+
+// crash consistency (C06): the persisted head/tail pointers always resolve to a stored header
+//@ pure ptrKeysOK() = (dsHas[headKey] ==> dsHas[kHash(unjsonHash(dsVal[headKey]))]) && (dsHas[tailKey] ==> dsHas[kHash(unjsonHash(dsVal[tailKey]))])
+//@ pure storedOrIn(x, headers) = dsHas[kHash(x.Hash())] || (exists i int :: 0 <= i && i < len(headers) && headers[i].Hash() == x.Hash())
+
+//@ func (*Store).flush(s, ctx, headers)
+//@   props C04, C06
+//@   requires storeINV(s) && !isBatch(s.ds) && forall i int :: 0 <= i && i < len(headers) ==> onChain(headers[i])
+//@   requires ends-set: len(headers) > 0 ==> apSet(s.contiguousHead) && apSet(s.tailHeader)
+//@   modifies ghost:btHas, ghost:btPuts, ghost:btVal, ghost:dsHas, ghost:dsVal, ghost:dsWrites
+//@   ensures [C06] one-write: dsWrites <= old(dsWrites) + 1
+//@   ensures [C06] empty-is-noop: len(headers) == 0 ==> result == nil && dsHas == old(dsHas) && dsVal == old(dsVal)
+//@   ensures [C06] all-or-nothing: result != nil ==> dsHas == old(dsHas) && dsVal == old(dsVal)
+//@   ensures [C06] committed: result == nil ==> forall i int :: 0 <= i && i < len(headers) ==> dsHas[kHash(headers[i].Hash())] && sameHdr(decHdr(dsVal[kHash(headers[i].Hash())]), headers[i]) && dsHas[kHeight(headers[i].Height())] && dsVal[kHeight(headers[i].Height())] == headers[i].Hash()
+//@   ensures [C06] pointers: result == nil && len(headers) > 0 ==> dsHas[headKey] && dsVal[headKey] == jsonHash(apVal(s.contiguousHead).Hash()) && dsHas[tailKey] && dsVal[tailKey] == jsonHash(apVal(s.tailHeader).Hash())
+//@   ensures [C06] never-deletes: forall k Key @ dsHas[k] :: old(dsHas)[k] ==> dsHas[k]
+//@   ensures [C06] pointers-resolve: old(ptrKeysOK()) && (len(headers) > 0 ==> storedOrIn(apVal(s.contiguousHead), headers) && storedOrIn(apVal(s.tailHeader), headers)) ==> ptrKeysOK()
+//@   ensures [C04] inv: storeINV(s)
+//@ loop 0:
+//@   invariant bounds: -1 <= rangeindex && rangeindex + 1 <= len(headers)
+//@   invariant untouched: dsHas == old(dsHas) && dsVal == old(dsVal) && dsWrites == old(dsWrites) && batch != nil && isBatch(batch)
+//@   invariant put: forall i int :: 0 <= i && i <= rangeindex ==> btHas[kHash(headers[i].Hash())] && sameHdr(decHdr(btVal[kHash(headers[i].Hash())]), headers[i])
+//@   invariant only-hash-keys: forall k Key @ btHas[k] :: btHas[k] ==> keyTag(k) == 1 && onChain(decHdr(btVal[k])) && decHdr(btVal[k]).Hash() == unkHash(k)
+
+//@ func (*batch).Len(b)
+//@   trusted -- len() of a map is not modelled: only emptiness is related to the membership model
+//@   ensures result >= 0 && (result == 0 <==> forall h uint64 @ has(b.headers, h) :: !has(b.headers, h))
+
+//@ func (*batch).GetAll(b)
+//@   trusted -- slices.Collect(maps.Values(m)): iterator functions are outside the modelled fragment
+//@   ensures forall i int :: 0 <= i && i < len(result) ==> has(b.headers, result[i].Height()) && result[i] == b.headers[result[i].Height()]
+//@   ensures forall h uint64 @ has(b.headers, h) :: has(b.headers, h) ==> exists i int :: 0 <= i && i < len(result) && result[i] == b.headers[h]
+
+//@ func getHeights(headers)
+//@   props C12
+//@   ensures [C12] heights: len(result) == len(headers) && forall i int @ result[i] @ headers[i] :: 0 <= i && i < len(headers) ==> result[i] == headers[i].Height()
+//@ loop 0:
+//@   invariant bounds: -1 <= rangeindex && rangeindex + 1 <= len(headers) && len(heights) == len(headers)
+//@   invariant filled: forall i int :: 0 <= i && i <= rangeindex ==> heights[i] == headers[i].Height()
+//@   invariant frame: unchanged("elems(uint64)")
+
+// ---- the single writer: one step of the flush loop (C04 readable + gap-free head, C06 reset only after commit,
+// C12 stored before announced, C17 monotone head)
+//@ func (*Store).flushLoop$1(headers)
+//@   props C04, C06, C12, C17
+//@   requires storeINV(s) && !isBatch(s.ds) && s.pending != nil && forall i int :: 0 <= i && i < len(headers) ==> onChain(headers[i])
+//@   modifies $now, ghost:hcHas, ghost:hcVal, ghost:icHas, ghost:icVal, ghost:btHas, ghost:btPuts, ghost:btVal, ghost:dsHas, ghost:dsVal, ghost:dsWrites, AP_set, AP_val_Hdr, AT_u64, MH_Int_Hdr_has, MH_Int_Hdr_val, MH_Str_Int_has, MH_Str_Int_val, sub.count, MH_Int_Int_has, MH_Int_Int_val, ghost:arrived
+//@   ensures [C04] inv: storeINV(s)
+//@   ensures [C04] readable: forall i int :: 0 <= i && i < len(headers) ==> has(s.pending.headers, headers[i].Height()) || dsHas[kHeight(headers[i].Height())]
+//@   ensures [C06] ends: len(headers) > 0 ==> apSet(s.contiguousHead) && apSet(s.tailHeader)
+//@   ensures [C06] never-deletes: forall k Key @ dsHas[k] :: old(dsHas)[k] ==> dsHas[k]
+//@   ensures [C06] nothing-lost: forall h uint64 @ has(s.pending.headers, h) :: old(has(s.pending.headers, h)) ==> has(s.pending.headers, h) || dsHas[kHeight(h)]
+//@   ensures [C17] head-monotone: old(apSet(s.contiguousHead)) ==> apSet(s.contiguousHead) && apVal(s.contiguousHead).Height() >= old(apVal(s.contiguousHead).Height())
+//@   before Notify [C12] stored-before-announced: forall i int :: 0 <= i && i < len(headers) ==> has(s.pending.headers, headers[i].Height())
+//@   before ensureInit [C17] readable-before-published: forall i int :: 0 <= i && i < len(headers) ==> has(s.pending.heights, hexStr(headers[i].Hash()))
+//@ loop 0:
+//@   invariant inv: storeINV(s) && !isBatch(s.ds) && s.pending != nil
+//@   invariant batch: forall j int :: 0 <= j && j < len(toFlush) ==> onChain(toFlush[j]) && has(s.pending.headers, toFlush[j].Height())
+//@   invariant covers: forall h uint64 @ has(s.pending.headers, h) :: has(s.pending.headers, h) ==> exists j int :: 0 <= j && j < len(toFlush) && toFlush[j] == s.pending.headers[h]
+//@   invariant never-deletes: forall k Key @ dsHas[k] :: old(dsHas)[k] ==> dsHas[k]
+
+// ---- deletion (C08, C14)
+// OnDelete handlers: user code, wrapped by OnDelete$1 so that a panic becomes an error. A handler may read the
+// store but is assumed not to write it.
+//@ ghost var hCalls int -- number of OnDelete handler invocations so far
+//@ field store.(*Store).deleteSingle.deleteFn(ctx, height)
+//@   effect hCalls := old(hCalls) + 1
+
+// the header to delete is found through the on-disk index or, when not flushed yet, in the pending batch
+//@ pure hashAt(s, h) = ite(dsHas[kHeight(h)], dsVal[kHeight(h)], s.pending.headers[h].Hash())
+
+//@ func (*Store).deleteSingle(s, ctx, height, onDelete)
+//@   props C08, C14
+//@   unreachable return2 : datastore read errors other than ErrNotFound are not modelled (store.spec)
+//@   requires storeINV(s) && !isBatch(s.ds)
+//@   ghost herr error := result0 of call deleteFn #0
+//@   modifies $now, ghost:hcHas, ghost:icHas, ghost:icVal, ghost:hCalls, ghost:dsHas, ghost:dsWrites, ghost:dsDeletes, MH_Int_Hdr_has, MH_Str_Int_has
+//@   before deleteFn [C14] still-readable: dsHas == old(dsHas) && dsVal == old(dsVal) && unchanged("MH_Int_Hdr_has") && unchanged("MH_Str_Int_has") && (dsHas[kHeight(height)] || has(s.pending.headers, height))
+//@   ensures [C08] inv: storeINV(s)
+//@   ensures [C14] all-handlers-ran: result == nil ==> hCalls == old(hCalls) + len(onDelete)
+//@   ensures [C14] handler-error-keeps-header: called(herr) && herr != nil ==> result != nil && dsHas == old(dsHas) && dsDeletes == old(dsDeletes) && unchanged("MH_Int_Hdr_has")
+//@   ensures [C08] removed: result == nil ==> !dsHas[kHeight(height)] && !dsHas[kHash(old(hashAt(s, height)))] && !icHas[height] && !hcHas[hexStr(old(hashAt(s, height)))] && !has(s.pending.headers, height)
+//@   ensures [C08] others-untouched: forall k Key @ dsHas[k] :: k != kHeight(height) && k != kHash(old(hashAt(s, height))) ==> (dsHas[k] <==> old(dsHas)[k])
+//@   ensures [C08] pending-others-untouched: forall h uint64 @ has(s.pending.headers, h) :: h != height ==> (has(s.pending.headers, h) <==> old(has(s.pending.headers, h)))
+//@   ensures [C08] missing-means-absent: result != nil && errors.Is(result, errMissingHeader) ==> !old(dsHas)[kHeight(height)] && !old(has(s.pending.headers, height)) && !has(s.pending.headers, height) && dsHas == old(dsHas) && hCalls == old(hCalls)
+//@   ensures [C08] index-cache-only-shrinks: forall k uint64 @ icHas[k] :: icHas[k] ==> old(icHas)[k]
+//@ loop 0:
+//@   invariant bounds: -1 <= rangeindex && rangeindex + 1 <= len(onDelete)
+//@   invariant counted: hCalls == old(hCalls) + rangeindex + 1
+//@   invariant untouched: dsHas == old(dsHas) && dsVal == old(dsVal) && dsDeletes == old(dsDeletes) && unchanged("MH_Int_Hdr_has") && unchanged("MH_Str_Int_has") && (dsHas[kHeight(height)] || has(s.pending.headers, height)) && hash == hashAt(s, height)
+
+//@ pure gone(s, h) = !dsHas[kHeight(h)] && !has(s.pending.headers, h) && !icHas[h]
+
+//@ func (*Store).deleteSequential(s, ctx, from, to)
+//@   props C08, C14
+//@   requires storeINV(s) && !isBatch(s.ds) && from <= to && to - from < 4611686018427387904
+//@   modifies $now, ghost:hcHas, ghost:icHas, ghost:icVal, ghost:hCalls, ghost:dsHas, ghost:dsWrites, ghost:dsDeletes, MH_Int_Hdr_has, MH_Str_Int_has
+//@   ensures [C08] inv: storeINV(s)
+//@   ensures [C08] progress-bounds: from <= result0 && result0 <= to
+//@   ensures [C08] complete-on-success: result2 == nil ==> result0 == to
+//@   ensures [C08] removed: forall h uint64 :: from <= h && h < result0 ==> gone(s, h)
+//@   ensures [C08] outside-untouched: forall h uint64 :: (h < from || h >= to) ==> (dsHas[kHeight(h)] <==> old(dsHas)[kHeight(h)]) && (has(s.pending.headers, h) <==> old(has(s.pending.headers, h)))
+//@ loop 0:
+//@   invariant inv: storeINV(s) && !isBatch(s.ds) && from <= height && height <= to && 0 <= missing && missing <= height - from
+//@   invariant removed: forall h uint64 :: from <= h && h < height ==> gone(s, h)
+//@   invariant outside-untouched: forall h uint64 :: (h < from || h >= to) ==> (dsHas[kHeight(h)] <==> old(dsHas)[kHeight(h)]) && (has(s.pending.headers, h) <==> old(has(s.pending.headers, h)))
+//@   decreases to - height
